@@ -2,11 +2,12 @@ SPECIFICATION Spec
 CONSTANTS
   Sess = {1}
   Reps = {"v", "a"}
-  Clients = {"c1"}
+  Clients = {"c1", "c2"}
   NSeg = 2
   Extra = 0
   First = 5
-  Scripts <- Scripts1x4
+  Scripts <- Scripts2x21
   ErrSets <- OneErr
-  StepGuard = FALSE
+  StepGuard = TRUE
 INVARIANTS InitFirst Consecutive StepLower StepUpper DeleteStops Delivered StuckOnlyAfterStop DurationCount DurationLmsg
+PROPERTIES ApiReturns SessionsEnd
